@@ -180,6 +180,12 @@ def normal_exit(run, fs, res, rep):
                 new=ObjView(selfv) if selfv is not None else None,
                 a=NS(run.args0), res=view(res) if isinstance(res, SV) else res, run=run, lg=run.lg,
                 a_new=NS({k: v for k, v in run.env.items()}))
+    if fs.ghost_out:
+        # ghost results are DEFINED by the body's ghost state at exit (e.g. the list of model inputs built by a loop ghost)
+        cexit.gout = NS({g: gt.wrap(_term(run.clause('ghost:' + g, gdef, cexit))) for g, (gt, gdef) in fs.ghost_out.items()})
+    for cn, f in fs.counts.items():
+        run.oblige(f"{key}/post/count:{cn}", run.counter(cn) == _term(run.clause('count:' + cn, f, cexit)), kind='post', clause='count:' + cn,
+                   function=key)
     if fs.ghost_update is not None and selfv is not None and fs.kind != 'init':
         allf = selfv.spec().all_fields()
         for g, term in fs.ghost_update(cexit).items():
@@ -198,15 +204,16 @@ def normal_exit(run, fs, res, rep):
             run.oblige(f"{key}/post/result_type", False, kind='post', clause='result_type', function=key,
                        detail=f"result {res} is not a {fs.ret}")
             return
-    for cname, f in fs.ensures.items():
-        run.oblige(f"{key}/post/{cname}", f(cexit), kind='post', clause=cname, function=key)
+    for cname, f in list(fs.ensures.items()) + list(fs.body_ensures.items()):
+        run.oblige(f"{key}/post/{cname}", run.clause(cname, f, cexit), kind='post', clause=cname, function=key)
     if fs.implements:
         ifs = FUNCS[fs.implements]
         for cname, f in ifs.ensures.items():
-            run.oblige(f"{key}/iface:{ifs.key}/{cname}", f(cexit), kind='iface', clause=cname, function=key)
+            run.oblige(f"{key}/iface:{ifs.key}/{cname}", run.clause(cname, f, cexit), kind='iface', clause=cname, function=key)
     if selfv is not None and fs.exit_inv and not fs.pure:
         for cname, f in selfv.spec().all_invariants().items():
-            run.oblige(f"{key}/inv/{cname}", f(ObjView(selfv)), kind='inv', clause='inv:' + cname, function=key)
+            run.oblige(f"{key}/inv/{cname}", run.clause(cname, f, ObjView(selfv)), kind='inv', clause='inv:' + cname,
+                       function=key)
     if selfv is not None and fs.kind != 'init':
         frame = None
         if fs.pure:
@@ -234,10 +241,10 @@ def exceptional_exit(run, fs, e, cpre, rep):
                     new=ObjView(selfv) if selfv is not None else None, a=NS(run.args0), run=run, lg=run.lg,
                     a_new=NS({k: v for k, v in run.env.items()}))
             if r.get('when') is not None:
-                run.oblige(f"{key}/raises/{exc}/when", r['when'](c), kind='raises_when', clause=f'raises:{exc}:when',
+                run.oblige(f"{key}/raises/{exc}/when", run.clause('when', r['when'], c), kind='raises_when', clause=f'raises:{exc}:when',
                            function=key, detail=e.info)
             for cname, f in (r.get('post') or {}).items():
-                run.oblige(f"{key}/raises/{exc}/{cname}", f(c), kind='raises_post', clause=cname, function=key,
+                run.oblige(f"{key}/raises/{exc}/{cname}", run.clause(cname, f, c), kind='raises_post', clause=cname, function=key,
                            detail=e.info)
             if fs.exc_inv and selfv is not None:
                 for cname, f in selfv.spec().all_invariants().items():
